@@ -60,6 +60,10 @@ def cases(tier, seed):
                         if tier == "quick" and lam is None and (B == 3 or office == "H"):
                             continue
                         out.append({"kind": "scen", "B": B, "lambda": lam, "fe": fe, "office": office, "bg": bgk, "seed": seed})
+                        if lam == 1.0 and (B == 10 or tier == "thorough"):
+                            # the documented error bound on the expected-vote percentage, below and above its default 0.5
+                            for evb in (0.25, 0.6, 0.9):
+                                out.append({"kind": "scen", "B": B, "lambda": lam, "fe": fe, "office": office, "bg": bgk, "evb": evb, "seed": seed})
     # presidential correction (reads three remote files, served by the object-store seam): a one-party outstanding county
     # whose corrected margin lands beyond the feasible range
     for B in (5, 20):
@@ -198,8 +202,8 @@ def _scen(case, cov, viol):
             hi = int(t * 0.975)
             u["b_dem"], u["b_gop"] = (hi, t - hi - 1) if i % 2 else (t - hi - 1, hi)
             u["r_dem"], u["r_gop"] = (u["r_turnout"], 0) if i % 3 else (0, u["r_turnout"])
-    d = ["1", "10", "2", "1"]
-    for k, (loc, pev) in enumerate([("pop0", 0.0), ("pop1", 20.0), ("newstate", 60.0), ("pop0", 95.0)]):
+    d = ["1", "10", "2", "1", "10", "2"]
+    for k, (loc, pev) in enumerate([("pop0", 0.0), ("pop1", 20.0), ("newstate", 60.0), ("pop0", 95.0), ("pop1", 55.0), ("pop0", 50.0)]):
         p = E.make_probe(case["seed"], k, "nonrep_partial", loc, office, d[k] if office == "H" else None, weights="twoparty")
         p["pev"] = pev
         if pev == 0.0:
@@ -212,9 +216,17 @@ def _scen(case, cov, viol):
     z = E.make_probe(case["seed"], 9, "unit_blocklisted", "newcounty", office, "2" if office == "H" else None, weights="twoparty")
     z.update(id=z["id"].replace("AAcN", "AAcZ"), county="AAcZ", pev=0.0, r_dem=0, r_gop=0, r_turnout=0)
     units.append(z)
+    # a county that consists of one tiny, one-sided outstanding unit (a handful of votes): rounding of vote counts is as
+    # large as the normalised quantities themselves
+    t = E.make_probe(case["seed"], 8, "nonrep_partial", "newcounty", office, "1" if office == "H" else None, weights="twoparty")
+    t.update(id=t["id"].replace("AAcN", "AAcT"), county="AAcT", pev=0.0, r_dem=0, r_gop=0, r_turnout=0, b_dem=0, b_gop=6, b_turnout=7)
+    units.append(t)
     mp = {"B": case["B"]}
     if case["lambda"] is not None:
         mp["lambda_"] = case["lambda"]
+    if case.get("evb") is not None:
+        mp["percent_expected_vote_error_bound"] = case["evb"]
+        cov["runs_with_configured_expected_vote_error_bound"] += 1
     aggs = ["postal_code", "county_fips", "unit"] if office == "G" else ["postal_code", "district", "county_fips", "unit"]
     cfg = E.make_cfg(office=office, pi_method="bootstrap", estimands=["margin"], features=["baseline_normalized_margin"], alphas=list(ALPHAS), aggregates=aggs, model_parameters=mp,
                      fixed_effects={"county_classification": ["all"]} if case["fe"] else {})
@@ -228,6 +240,8 @@ def _scen(case, cov, viol):
             if tname != "unit_data":
                 if r.get("county_fips") == "AAcZ":
                     cov["zero_turnout_groups"] += 1
+                if r.get("county_fips") == "AAcT":
+                    cov["tiny_one_sided_groups"] += 1
                 if not (-1.0 <= r["pred_margin"] <= 1.0):
                     viol("group-margin-out-of-range", f"{case}: {tname} {ident} pred_margin={r['pred_margin']}")
                 if not r["pred_turnout"] >= 0:
@@ -343,4 +357,4 @@ def evaluate(case):
     return out
 
 
-REQUIRED_COUNTERS = {"rank_states": 1000000, "draw_matrices": 10000, "scen_group_rows": 100, "extreme_runs": 5, "zero_turnout_groups": 10, "presidential_runs": 4, "presidential_correction_at_the_clip": 2}
+REQUIRED_COUNTERS = {"rank_states": 1000000, "draw_matrices": 10000, "scen_group_rows": 100, "extreme_runs": 5, "zero_turnout_groups": 10, "tiny_one_sided_groups": 10, "presidential_runs": 4, "presidential_correction_at_the_clip": 2}
